@@ -18,7 +18,7 @@ Useful API: `from awesomeyaml.builder import Builder; b = Builder(); b.add_sourc
 
 TASK: produce TWO different, independent faulty changes (at different code sites / of different nature), each of which:
  (1) is a small, realistic edit a developer could plausibly make (an off-by-one, a wrong comparison, a dropped/reordered statement, a wrong default, a cache/aliasing slip, a "harmless" refactor that is not) to files under awesomeyaml/ — no changes to tests;
- (2) still imports and still passes the existing test-suite exactly as before: run `cd {wt} && /venv/bin/python -m pytest -q -p no:cacheprovider --timeout=900 --continue-on-collection-errors 2>&1 | tail -3` before and after (the unchanged tree prints "100 passed ... 1 error" — that 1 error is pre-existing and expected); the set of passing tests must not shrink;
+ (2) still imports and still passes the existing test-suite exactly as before: run `cd {wt} && /venv/bin/python -m pytest -q -p no:cacheprovider --timeout=900 --continue-on-collection-errors 2>&1 | tail -3` before and after (the unchanged tree prints "262 passed ... 1 error" — that 1 error is pre-existing and expected); the set of passing tests must not shrink;
  (3) breaks the property above, but only in situations that need something specific to manifest — a particular multi-step sequence, an unusual input, a particular interleaving or order, or two cooperating code sites that each look fine alone — NOT something that ordinary use exposes at once;
  (4) comes with a demonstration script using only the public API that exits 0 on the unchanged library and exits non-zero (failed assertion) with the change.
 
